@@ -9,7 +9,7 @@ CLAIM = dict(
     technique='SMT check of the representation-code choice of CbEngValWrite over every integer; CrossHair-driven exploration of LrTableWrite -> LrTableRead and '
               'EntryBlockSet.lisBytes + channel blocks -> LrDFSRRead over symbolic table shapes, duplicate row names, cell kinds, units, entry-block subsets and channel definitions',
     text='Bounded symbolic checking: (1) for every Python int the component block writer picks code 66 / 79 / 73 exactly when the value fits and refuses anything beyond 32 bits; '
-         '(2) tables of 0..3 rows named from a 3-name vocabulary (so duplicates arise), 1..2 value columns with cells drawn from 16 kinds (empty/short/4-byte text, integers on '
+         '(2) tables of 0..3 rows named from a 3-name vocabulary (so duplicates arise), 0..2 value columns (0: a table of row names only) with cells drawn from 16 kinds (empty/short/4-byte text, integers on '
          'both sides of every code boundary, floats), optional units, whole or split over physical records, decode to the same table name, row order with the first of duplicate '
          'names kept, column set, cell values, codes, sizes and units; (3) entry block sets with any subset of 13 optional blocks (two or three values each) and 1..3 channel blocks '
          'of six kinds decode to the same entry values (defaults for the rest), even total length, and the same channel definitions with derived bursts / sub-channels.',
@@ -64,11 +64,11 @@ def obligations(tier):
     q = tier == 'quick'
     return [
         ob_cb_repcode_choice(),
-        Ob('table_write_then_read', 'ch', '0..3 rows (text or numeric row names) over 7 names (duplicates), 1..2 value columns, 16 cell kinds, units on/off, one or several physical records',
+        Ob('table_write_then_read', 'ch', '0..3 rows (text or numeric row names) over 7 names (duplicates), 0..2 value columns (0: a table of row names only), 16 cell kinds, units on/off, one or several physical records',
            ['LIS.core.LogiRec.LrTableWrite.__init__', 'LrTable.genLisBytes/startNewRow/addDatumBlock/_indexLastRowOrDiscard', 'CbEngValWrite', 'CbEngVal.lisBytes', 'LrTableRead.__init__',
             'CbEngValRead', 'TableRow', 'LIS.core.RepCode.writeBytes/readRepCode', 'LIS.core.EngVal.EngValRc'],
            harness='C08_tables', func='table_roundtrip_q' if q else 'table_roundtrip', timeout=280 if q else 3000, parts=16),
-        Ob('dfsr_write_then_read', 'ch', 'entry block subsets (13 optional blocks, 2..3 values each), 1..3 channel blocks of 6 kinds, one or several physical records',
+        Ob('dfsr_write_then_read', 'ch', 'entry block subsets (13 optional blocks, 2..3 values each; units, frame size and absent value blocks also written empty), 1..3 channel blocks of 6 kinds, one or several physical records',
            ['LIS.core.LogiRec.EntryBlockSet.setEntryBlock/lisBytes/lisByteList/_setLisSizeEven/lisSize/readFromFile', 'EntryBlock.lisBytes', 'EntryBlockRead', 'DatumSpecBlockRead',
             'DatumSpecBlock._setBurstsSubChannels/samples/bursts/values', 'LrDFSRRead.__init__', 'LrDFSR.frameSize'],
            harness='C08_tables', func='dfsr_roundtrip_q' if q else 'dfsr_roundtrip', timeout=280 if q else 3000, parts=16),
